@@ -53,6 +53,8 @@ func c09(c *q.Ctx) {
 		// success exits: whitelist, no-request, or full re-execution
 		c.Gate(vt, "xmodel::Equal", q.ToSuccess(), q.Opt{Unless: alt})
 	}
+	// the declared reads are compared with the current versions once more under the key locks, at commit
+	commitVersionChecks(c)
 	// K7 PreExec / verifyTxRWSets agree
 	pe := c.Fn("kernel/engines/xuperos::(*Chain).PreExec")
 	if pe != nil && vt != nil {
